@@ -247,7 +247,7 @@ Fixpoint in_final (fuel : nat) (cfg : list nat) (i : nat) : bool :=
     | FCompound =>
       match find (fun ch => mem ch cfg) (fs_children s) with
       | Some ch => in_final f cfg ch
-      | None => true
+      | None => false
       end
     | FHistShallow | FHistDeep => true
     end
